@@ -447,11 +447,15 @@ theorem lazy_iteration_lowers_measure (g : Graph) (d : Nat → Nat) (hr : Ranked
 
 open I2N.Trav.Term in
 /-- decidable hypotheses, initial state with the composite nodes hidden: the first block of every worker terminates
-within `lazyBound g 1` iterations -/
+within `lazyBound g 1` iterations.  `hidden` may also hold hidden EDGES (`edgeCode`, above every node index: the edge from a
+flat node to a composite node that exists already as a dependency of a test of another set appears only when that flat node
+is expanded); `hedge` (added with that model repair): the edges from the shared root to the flat nodes are not among them —
+necessary, see `hidden_root_edge_spins`. -/
 theorem lazy_first_block_terminates (g : Graph) (hr : rankedB g = true) (hsym : edgeSymB g = true) (hz : lazyOKB g = true)
     (ncls : Nat) (hcls : ∀ n, n < g.nodes.length → (g.node n).cls < ncls)
     (store : List (String × List (String × String))) (hidden : List Nat)
     (hroot : hidden.contains g.root = false) (hflat : hidden.all (fun x => !(g.node x).flat) = true)
+    (hedge : (List.range g.nodes.length).all (fun f => !(g.node f).flat || !hidden.contains (edgeCode g g.root f)) = true)
     (w : Nat) (hw : w < g.workers.length) (fuel : Nat) (hf : lazyBound g 1 ≤ fuel) :
     ∃ r, runLoopO g w (lazyBound g 1) (initState g ncls store hidden) [] = some r ∧
       runLoop g w fuel (initState g ncls store hidden) [] = r := by
@@ -462,14 +466,23 @@ theorem lazy_first_block_terminates (g : Graph) (hr : rankedB g = true) (hsym : 
     · rw [List.all_eq_true] at hflat
       have := hflat f (List.contains_iff_mem.mp hc)
       rw [hf] at this; cases this
+  have hedge' : ∀ f, (g.node f).flat = true → hidden.contains (edgeCode g g.root f) = false := by
+    intro f hf
+    by_cases hfN : f < g.nodes.length
+    · rw [List.all_eq_true] at hedge
+      have := hedge f (List.mem_range.mpr hfN)
+      rw [hf] at this
+      simpa using this
+    · rw [node_flat_of_ge g f hfN] at hf; cases hf
   have h := runLoop_terminates_lazy g (depth g) (rankedB_sound hr) (edgeSymB_sound hsym) (lazyOKB_sound hz) w
-    (initState g ncls store hidden) [] (lstate_init g _ ncls store hidden hcls hroot hflat' w hw)
+    (initState g ncls store hidden) [] (lstate_init g _ ncls store hidden hcls hroot hflat' hedge' w hw)
   rw [pickLevel_init] at h
   exact h fuel hf
 
 open I2N.Trav.Term in
 /-- **Every reachable state of a lazily expanded graph.**  `ReachableL g ncls store hidden`: the states the scheduler
-reaches from the initial state in which exactly `hidden` is not parsed yet (root and flat nodes are parsed).  In each
+reaches from the initial state in which exactly `hidden` is not parsed yet (root and flat nodes are parsed, `hedge`: and
+the flat nodes hang below the root — hypothesis added when `State.hidden` learnt to hide single edges).  In each
 of them, for every worker that has not left the loop, the state hypotheses `LState` hold (`reachable_lstate`: the path
 shape as before; "no unexplored flat node has been dropped from the root" because a worker pops a child of the root
 only after the expansion step has unrolled it, and the node of a test execution is never flat), hence the loop it runs
@@ -478,10 +491,11 @@ theorem reachable_lazy_loop_terminates (g : Graph) (d : Nat → Nat) (hr : Ranke
     (ncls : Nat) (store : List (String × List (String × String))) (hidden : List Nat)
     (hcls : ∀ n, n < g.nodes.length → (g.node n).cls < ncls)
     (hroot : hidden.contains g.root = false) (hflat : ∀ f, (g.node f).flat = true → hidden.contains f = false)
+    (hedge : ∀ f, (g.node f).flat = true → hidden.contains (edgeCode g g.root f) = false)
     (s : State) (h : ReachableL g ncls store hidden s) (w : Nat) (hw : w < g.workers.length)
     (hnd : (s.wd w).pc ≠ .done) (evs : List Event) (fuel : Nat) (hf : lazyBound g (pickLevel g s) ≤ fuel) :
     ∃ r, runLoopO g w (lazyBound g (pickLevel g s)) s evs = some r ∧ runLoop g w fuel s evs = r :=
-  runLoop_terminates_lazy g d hr hsym hz w s evs (reachable_lstate hr hsym hz hcls hroot hflat h w hw hnd) fuel hf
+  runLoop_terminates_lazy g d hr hsym hz w s evs (reachable_lstate hr hsym hz hcls hroot hflat hedge h w hw hnd) fuel hf
 
 /-- what remains partial about the loop between two suspension points: the bound for lazily expanded graphs depends on
 the state through the level `pickLevel g s` of the pick counters (a static bound needs "an unexplored flat node was
@@ -551,7 +565,7 @@ def gLazy : Graph :=
     root := 0 }
 
 example := lazy_first_block_terminates gLazy (by decide) (by decide) (by decide) 5 (by decide) [] [3, 4, 5, 6]
-  (by decide) (by decide) 0 (by decide) 200000 (by decide)
+  (by decide) (by decide) (by decide) 0 (by decide) 200000 (by decide)
 /-- the block of the first worker contains a postponement jump (from `[root, a-flat, a.net1]` straight to `[root]`, the
 ninth iteration, while the second flat node is unexplored) and ends with the exit after 24 iterations -/
 example : ((I2N.Trav.Term.tracePaths gLazy 0 9 (initState gLazy 5 [] [3, 4, 5, 6])).drop 7 = [[0, 1, 3], [0]]) ∧
@@ -562,6 +576,10 @@ example := reachable_lazy_loop_terminates gLazy _ (I2N.Trav.Term.rankedB_sound (
   (I2N.Trav.Term.lazyOKB_sound (by decide)) 5 [] [3, 4, 5, 6] (by decide) (by decide)
   (by intro f hf; have : ¬ (f = 3 ∨ f = 4 ∨ f = 5 ∨ f = 6) := by
         rintro (h | h | h | h) <;> subst h <;> revert hf <;> decide
+      simp only [List.contains_cons, List.contains_nil, Bool.or_false, Bool.or_eq_false_iff, beq_eq_false_iff_ne]
+      omega)
+  (by intro f _
+      show ([3, 4, 5, 6] : List Nat).contains (7 * (0 + 1) + f) = false
       simp only [List.contains_cons, List.contains_nil, Bool.or_false, Bool.or_eq_false_iff, beq_eq_false_iff_ne]
       omega)
   _ (.step _ 0 ⟨none, 0⟩ 100 .init (by decide) (by decide)) 1 (by decide)
@@ -602,6 +620,51 @@ def gUnx : Graph :=
 
 theorem unexplored_orphan_spins : I2N.Trav.Term.rankedB gUnx = true ∧ edgeSymB gUnx = true ∧
     (runLoop gUnx 0 25 (initState gUnx 3 []) []).2 = [Event.raise "net1" "fuel"] := by decide
+
+/-- Necessity of `hedge` (model level): `gLazy` with the edge from the shared root to the second flat node hidden as well
+(`edgeCode gLazy 0 2 = 9`).  Nothing ever reveals an edge below the shared root (only the expansion of a flat node reveals
+edges, those to its own composite nodes), so the second flat node stays unexplored and every cleanup is postponed by a jump
+back to the root.  The lazy parser never builds this: flat nodes are hung below the shared root before the traversal starts
+(`TestRunner.run_workers`), and `harness/travlib.py` hides edges from non-root flat nodes to composite nodes only. -/
+theorem hidden_root_edge_spins : edgeCode gLazy gLazy.root 2 = 9 ∧
+    (runLoop gLazy 0 60 (initState gLazy 5 [] [3, 4, 5, 6, 9]) []).2 = [Event.raise "net1" "fuel"] := by decide
+
+/-- **Mixed-set lazy expansion** (the shape of the shipped selection `leaves..tutorial_get, normal..tutorial_gui`): ONE composite
+node `x` (node 3) is the test of the flat node `normal.gui.x` (node 2) and the setup of `y` (node 4), the test of the flat
+node `leaves.y` (node 1).  Expanding `leaves.y` parses `x` as a dependency; `x` becomes a child of ITS flat node only when that
+one is expanded too (`hidden` holds the codes of both flat-to-composite edges: `edgeCode gMix 1 4 = 14`,
+`edgeCode gMix 2 3 = 18`). -/
+def gMix : Graph :=
+  { workers := [{ id := "net1", swarm := "localhost" }],
+    nodes := [{ cls := 0, owner := none, name := "root", pfx := "0", flat := true, sharedRoot := true,
+                cleanup := [(1, []), (2, []), (3, ["vm1"])] },
+              { cls := 1, owner := none, name := "leaves.y", pfx := "1", flat := true, setless := "y",
+                setup := [(0, [])], cleanup := [(4, [])] },
+              { cls := 2, owner := none, name := "normal.gui.x", pfx := "2", flat := true, setless := "x", rank := 1,
+                setup := [(0, [])], cleanup := [(3, [])] },
+              { cls := 3, owner := some 0, name := "all.x.net1", pfx := "1a", dryRun := true, setup := [(0, ["vm1"]), (2, [])],
+                cleanup := [(4, ["vm1"])] },
+              { cls := 4, owner := some 0, name := "leaves.y.net1", pfx := "1", dryRun := true, setup := [(3, ["vm1"]), (1, [])] }],
+    root := 0 }
+
+/-- after the expansion of `leaves.y` (second iteration) the shared node `x` is parsed but is not yet a child of its own flat
+node (`hidden = [18]`), which therefore still counts as unexplored: the cleanup of `y` is postponed (jump from
+`[root, leaves.y, y]` to `[root]`, as the code does it), the worker then picks and expands `normal.gui.x`, and only then are
+both composite nodes cleaned up; the block ends with the exit and nothing hidden.  With the edge visible from the start (the
+model before the repair; `hidden = [3, 4]`) `normal.gui.x` counts as unrolled as soon as `x` is parsed, nothing is postponed
+and the worker walks up from `x` into its flat node instead (`[root, leaves.y, y, x, normal.gui.x]`). -/
+theorem mixed_set_edge_appears_with_expansion :
+    edgeCode gMix 1 4 = 14 ∧ edgeCode gMix 2 3 = 18 ∧ I2N.Trav.Term.lazyOKB gMix = true ∧
+    ((I2N.Trav.Term.tracePaths gMix 0 14 (initState gMix 5 [] [3, 4, 14, 18])).drop 8 =
+      [[0, 1, 4, 3], [0, 1, 4], [0], [0, 2], [0, 2, 0], [0, 2]]) ∧
+    ((iterL gMix (iterL gMix (initState gMix 5 [] [3, 4, 14, 18]) 0).1 0).1.hidden = [18] ∧
+     unexploredNodes (vis gMix (iterL gMix (iterL gMix (initState gMix 5 [] [3, 4, 14, 18]) 0).1 0).1)
+       (iterL gMix (iterL gMix (initState gMix 5 [] [3, 4, 14, 18]) 0).1 0).1 = [2] ∧
+     ((vis gMix (iterL gMix (iterL gMix (initState gMix 5 [] [3, 4, 14, 18]) 0).1 0).1).node 2).cleanup = []) ∧
+    (runLoop gMix 0 40 (initState gMix 5 [] [3, 4, 14, 18]) []).2 = [Event.exit "net1"] ∧
+    (runLoop gMix 0 40 (initState gMix 5 [] [3, 4, 14, 18]) []).1.hidden = [] ∧
+    ((I2N.Trav.Term.tracePaths gMix 0 9 (initState gMix 5 [] [3, 4])).drop 6 = [[0, 1, 4, 3], [0, 1, 4, 3, 2], [0, 1, 4, 3, 2, 0]]) := by
+  decide
 
 /-! ## Termination ACROSS suspensions: a single worker (`Lemmas/TravGlobal.lean`)
 
